@@ -136,7 +136,9 @@ func (p *c19) history(i int) c19history {
 		h.files["includes-9M"] = "a {% include 'size-9M' %} b"
 		sized = append(sized, "size-1M", "size-9M", "includes-9M")
 	}
-	names := []string{"main", "part1", "part2", "layout", "macros", "base0", "broken-lex", "broken-parse", "includes-broken", "extends-broken", "imports-broken", "runtime-fail", "many", "no-such-template", "subdir", "", "includes-dir", "includes-empty", "extends-dir", "subdir/inner"}
+	names := []string{"main", "part1", "part2", "layout", "macros", "base0", "broken-lex", "broken-parse", "includes-broken", "extends-broken", "imports-broken", "runtime-fail", "many", "no-such-template", "subdir", "", "includes-dir", "includes-empty", "extends-dir", "subdir/inner",
+		"linkout.twig", "linkdir/o.twig", "linkin.twig", "dangling.twig", "linkdir", "includes-linkout", "../" + "x", "subdir/../main", "./main", "subdir//inner"}
+	h.files["includes-linkout"] = "a {% include 'linkout.twig' %} b {% include 'linkdir/o.twig' %}"
 	n := 1 + r.Intn(p.pick(50, 200))
 	for k := 0; k < n; k++ {
 		ld := []string{"string", "memory", "fs", "fs"}[r.Intn(4)]
@@ -198,6 +200,17 @@ func (p *c19) Run(i int) (res fw.Result) {
 			os.Chtimes(filepath.Join(dir, n), old, old)
 		}
 	}
+	// symbolic links: to a file and to a directory outside the loader's root, to a file inside it, and to nothing
+	outside := dir + "-outside"
+	if err := os.MkdirAll(outside, 0o755); err != nil {
+		panic(err)
+	}
+	defer os.RemoveAll(outside)
+	os.WriteFile(filepath.Join(outside, "o.twig"), []byte("outside {{ 1 }}"), 0o644)
+	os.Symlink(filepath.Join(outside, "o.twig"), filepath.Join(dir, "linkout.twig"))
+	os.Symlink(outside, filepath.Join(dir, "linkdir"))
+	os.Symlink(filepath.Join(dir, "main"), filepath.Join(dir, "linkin.twig"))
+	os.Symlink(filepath.Join(dir, "nowhere"), filepath.Join(dir, "dangling.twig"))
 	mk := func(loader stick.Loader, tw bool) *stick.Env {
 		var env *stick.Env
 		if tw {
